@@ -39,22 +39,24 @@ func infra(format string, args ...any) error { return &InfraError{Msg: fmt.Sprin
 
 // Env is shared by all simulations of one check invocation.
 type Env struct {
-	WorkerBin  string
+	WorkerBin string
 	// RaceWorkerBin: the gensim worker built with -race (empty: no race leg).
 	RaceWorkerBin string
 	InflBin       string
-	InflRace   string
-	GoRoot     string
-	Scratch    string
-	GoMaxProcs int
-	Timeout    time.Duration
-	Stats      *Stats
-	worldSeq   atomic.Int64
+	InflRace      string
+	GoRoot        string
+	Scratch       string
+	GoMaxProcs    int
+	Timeout       time.Duration
+	Stats         *Stats
 }
+
+// worldSeq numbers the scratch worlds of this process (shared by copies of an Env).
+var worldSeq atomic.Int64
 
 // NewWorld creates an empty scratch directory.
 func (e *Env) NewWorld() (string, error) {
-	d := filepath.Join(e.Scratch, fmt.Sprintf("w%d", e.worldSeq.Add(1)))
+	d := filepath.Join(e.Scratch, fmt.Sprintf("w%d", worldSeq.Add(1)))
 	if err := os.MkdirAll(d, 0o755); err != nil {
 		return "", err
 	}
@@ -90,6 +92,8 @@ type Exec struct {
 	Viol    []Violation
 	Steps   []*StepRecord
 	step    int
+	// twoPass: a run with an unrecorded first pass happened (see violate)
+	twoPass bool
 	// loadBroken: the scenario broke a source file or go.mod on purpose.
 	loadBroken bool
 	// knownGo: <base>.*.go files that were Go files of a package before the run.
@@ -103,6 +107,12 @@ type Exec struct {
 }
 
 func (x *Exec) violate(prop, oracle, class, detail string, facts map[string]string) {
+	if x.twoPass && prop != "C06" && oracle != "X0" && oracle != "R1" {
+		// the history contains a run whose executor made an unrecorded first pass (C06 two-pass drivers):
+		// snapshots and the cache model do not describe what that pass did, so only the call-sequence
+		// oracles of C06 are sound from there on
+		return
+	}
 	x.Viol = append(x.Viol, Violation{Property: prop, Oracle: oracle, Class: class, Detail: detail, Variant: x.Variant, Step: x.step, Facts: facts})
 }
 
@@ -233,6 +243,35 @@ func (x *Exec) Do(op Op) error {
 			return infra("unhashable: %v", err)
 		}
 		x.Env.Stats.Add("fault/unhashable", 1)
+	case "linkout":
+		// generated files kept elsewhere and linked into the package (a shared tree, a link farm): every
+		// generated file of package K that is a regular file moves to _linked/ and a relative link takes its place
+		if op.K < 0 || op.K >= len(m.Pkgs) {
+			return infra("linkout: no package %d", op.K)
+		}
+		dir := x.pkgDir(op.K)
+		ents, _ := os.ReadDir(dir)
+		for _, e := range ents {
+			if !e.Type().IsRegular() || !strings.HasPrefix(e.Name(), x.Sc.Base+".") || !strings.HasSuffix(e.Name(), ".go") {
+				continue
+			}
+			side := filepath.Join(x.Root, "_linked")
+			if err := os.MkdirAll(side, 0o755); err != nil {
+				return infra("linkout: %v", err)
+			}
+			target := filepath.Join(side, fmt.Sprintf("p%d_%s", op.K, e.Name()))
+			if err := os.Rename(filepath.Join(dir, e.Name()), target); err != nil {
+				return infra("linkout: %v", err)
+			}
+			rel, err := filepath.Rel(dir, target)
+			if err != nil {
+				return infra("linkout: %v", err)
+			}
+			if err := os.Symlink(rel, filepath.Join(dir, e.Name())); err != nil {
+				return infra("linkout: %v", err)
+			}
+			x.Env.Stats.Add("op/output-replaced-by-symlink", 1)
+		}
 	case "break":
 		// make the load fail: a syntax error in a source file or a broken go.mod
 		p := filepath.Join(x.Root, op.Path)
@@ -359,7 +398,13 @@ func (x *Exec) doRun(op Op) (*StepRecord, error) {
 	if err != nil {
 		return nil, err
 	}
-	req := &proto.RunReq{Root: x.Root, Args: run.Args, Gens: run.Gens, Sched: run.Sched, Faults: run.Faults, ReadSum: run.Args.All, RetrySameExecutor: run.RetrySameExecutor}
+	cwd := ""
+	if run.Cwd != "" {
+		cwd = filepath.Join(x.Root, run.Cwd)
+		x.Env.Stats.Add("probe/run-from-a-package-directory", 1)
+	}
+	req := &proto.RunReq{Root: x.Root, Cwd: cwd, Args: run.Args, Gens: run.Gens, Sched: run.Sched, Faults: run.Faults, ReadSum: run.Args.All, RetrySameExecutor: run.RetrySameExecutor,
+		FirstGlobals: run.FirstGlobals, HasFirstGlobals: run.HasFirstGlobals}
 	for i := range req.Faults {
 		if req.Faults[i].Kind != "" {
 			req.Faults[i].ExecSeq = -1
@@ -397,6 +442,11 @@ func (x *Exec) doRun(op Op) (*StepRecord, error) {
 			rec.Killed = true
 			x.W = nil
 			x.Env.Stats.Add("fault/kill-fired", 1)
+			for _, f := range run.Faults {
+				if strings.HasPrefix(f.Do, "signal:") {
+					x.Env.Stats.Add("fault/died-from-"+f.Do, 1)
+				}
+			}
 		} else {
 			x.W = nil
 			return nil, infra("variant %s step %d: %v", x.Variant, x.step, err)
@@ -433,6 +483,9 @@ func (x *Exec) doRun(op Op) (*StepRecord, error) {
 			}
 		}
 		x.Env.Stats.Trace(resp.Events)
+	}
+	if run.HasFirstGlobals {
+		x.twoPass = true
 	}
 	x.checkRun(rec)
 	return rec, nil
